@@ -3,7 +3,7 @@
 # Stores a confirmed seeded change under /verif/seeded/<ID>-<m>/ (patch.diff, demo test, notes, meta.json).
 set -e
 id=$1; m=$2; pkg=$3; checks=$4; result=$5
-src=/tmp/mut/$id/_out
+src=${MUTSRC:-/tmp/mut/$id/_out}
 dst=/verif/seeded/$id-$m
 mkdir -p $dst
 cp $src/$m.diff $dst/patch.diff
